@@ -3,6 +3,10 @@
 // on_finalize set or not, both iteration orders of the upstream map.  Payloads are symbolic.
 // BOUND: at most 2 registered upstream observers (unwind 5 covers the facade's map loops for <= 2 entries).
 
+fn kani_any_bool() -> bool {
+  kani::any()
+}
+
 pub(crate) struct Rig {
   pub log: &'static Log,
   pub sub: Observer<'static, u8>,
@@ -60,6 +64,18 @@ impl Rig {
   /// C06 + C17 post-state of every ending: all upstream observers unsubscribed exactly once, map empty, on_finalize ran once
   /// (iff it was set) and was dropped, and the subscriber holds NO closure any more (all four slots empty)
   fn assert_ended(&self, k: usize, fin: bool) {
+    // A failed Rust assert ends the path, so the first failing clause would mask the others.  The C06 clauses (teardown) and the C17
+    // clauses (release) are therefore checked in BOTH orders (nondeterministic choice made after all library code has run).
+    if kani_any_bool() {
+      self.assert_torn_down(k, fin);
+      self.assert_released();
+    } else {
+      self.assert_released();
+      self.assert_torn_down(k, fin);
+    }
+  }
+  /// C06 post-state of every ending: all upstream observers unsubscribed exactly once, map empty, on_finalize ran once (iff set)
+  fn assert_torn_down(&self, k: usize, fin: bool) {
     if k >= 1 {
       self.assert_up_dead(self.up0(), 0);
     }
@@ -68,8 +84,11 @@ impl Rig {
     }
     assert!(self.map_len() == 0, "sctl.end: upstream map not empty");
     assert!(self.log.count(EV_F) == if fin { 1 } else { 0 }, "sctl.end: on_finalize did not run exactly once");
-    assert!(!self.fin_set(), "sctl.released: on_finalize closure still held");
     assert!(!self.sctl.is_subscribed(), "sctl.end: still subscribed");
+  }
+  /// C17 post-state of every ending: the subscriber holds NO closure any more (all four slots empty), on_finalize was dropped
+  fn assert_released(&self) {
+    assert!(!self.fin_set(), "sctl.released: on_finalize closure still held");
     let s = crate::observer::verif_k::abs(&self.sub);
     assert!(!s.n && !s.e && !s.c, "sctl.released: subscriber callback slot still held after the end");
     assert!(!s.t, "sctl.released: subscriber teardown closure (which owns the controller) still held after the end");
